@@ -1054,8 +1054,9 @@ func (ex *Exec) selectStmt(st *State, in *ssa.Select, k func(*State, Val)) {
 			hasDone = true
 		}
 	}
-	if !st.dry {
-		ex.blocking = append(ex.blocking, blockingOp{Site: siteOf(in), Kind: "select", Cancellable: hasDone || !in.Blocking, Note: fmt.Sprintf("select with %d arms", len(in.States))})
+	if !st.dry && in.Blocking {
+		// a select with a default arm never blocks
+		ex.blocking = append(ex.blocking, blockingOp{Site: siteOf(in), Kind: "select", Cancellable: hasDone, Note: fmt.Sprintf("select with %d arms", len(in.States))})
 	}
 	ex.syncPoint(st)
 	mk := func(s *State, idx int, recvIdx int, rv Val) Val {
